@@ -166,6 +166,25 @@ theorem optional_tokens_of_iso8601_flex (O : Oracles) (e : Ep) (y mo d h mi s ns
         ++ (if e.ts ≠ TS.UTC then [32] ++ Cal.strCodes e.ts.name else [])) :=
   ⟨iso8601Flex_is_const, iso8601Flex_output O e y mo d h mi s ns hg⟩
 
+/-- `RFC3339_FLEX` ("%Y-%m-%dT%H:%M:%S.%f?%z"): the optional sub-seconds are left out with their `.` when zero,
+    the offset follows directly — for every epoch and offset -/
+theorem optional_token_of_rfc3339_flex (O : Oracles) (e : Ep) (off : Dur) (y mo d h mi s ns : Int) (zt : List Nat)
+    (hg : Cal.computeGregorian e.dur e.ts = .ok (y, mo, d, h, mi, s, ns)) (hz : offsetText off = .ok zt) :
+    constByName? "RFC3339_FLEX" = some rfc3339Flex ∧
+    formatterFmt O rfc3339Flex e off =
+      .ok (Cal.fmtInt 4 y ++ [45] ++ Cal.fmtInt 2 mo ++ [45] ++ Cal.fmtInt 2 d ++ [84] ++ Cal.fmtInt 2 h ++ [58]
+        ++ Cal.fmtInt 2 mi ++ [58] ++ Cal.fmtInt 2 s ++ (if ns > 0 then [46] ++ Cal.fmtInt 9 ns else []) ++ zt) :=
+  ⟨rfc3339Flex_is_const, rfc3339Flex_output O e off y mo d h mi s ns zt hg hz⟩
+
+/-- `Epoch::to_isoformat` (`Formatter::new(e, ISO8601_STD)` cut after 26 bytes): for every canonical epoch in
+    range, in any scale, with year 0000–9999 it is `YYYY-MM-DDTHH:MM:SS.ffffff` of THE fields of the epoch in its
+    own scale — six sub-second digits, truncated, never a panic of the byte slice -/
+theorem to_isoformat_spec (O : Oracles) (e : Ep) (F : Spec.Efmt.Fields) (hd : e.dur.Canon) (hr : Cal.InCal e.dur.val)
+    (hF : Spec.Efmt.IsFields e.ts.name e.dur.val F) (hy : 0 ≤ F.y ∧ F.y ≤ 9999) :
+    constByName? "ISO8601_STD" = some iso8601Std ∧
+    ∃ text, toIsoformat O iso8601Std e = .ok text ∧ Spec.Efmt.isoformatText F = some text :=
+  ⟨iso8601Std_is_const, toIsoformat_spec O e F hd hr hF hy⟩
+
 /-
   FULL statement of the property's clause (quoted):
 
